@@ -53,6 +53,19 @@ Theorem free_labels_refused : forall free,
   (forall c m, check_labels free = Some (c, m) -> (c = true <-> In s_code free) /\ (m = true <-> In s_method free)).
 Proof. exact C12_proofs.check_labels_spec_lemma. Qed.
 
+(* stacked middlewares with code/method/context-derived labels: every request is counted exactly once by each
+   middleware, under the label tuple derived from that request and that middleware's own layout; what the other
+   middlewares of the stack are does not matter *)
+Theorem stacked_counted_once : forall lay extra qs,
+  total_count (children lay extra qs) = Z.of_nat (List.length qs) /\
+  (forall ls, lookup_child ls (children lay extra qs) =
+              Z.of_nat (List.length (filter (fun q => labels_eqb (req_labels lay extra q) ls) qs))).
+Proof. exact C12_proofs.stacked_counted_once_lemma. Qed.
+
+Theorem stack_independent : forall lays extra qs n lay,
+  nth_error lays n = Some lay -> nth_error (stack_children lays extra qs) n = Some (children lay extra qs).
+Proof. exact C12_proofs.stack_independent_lemma. Qed.
+
 (* non-vacuity: an informational header, an implicit 200 and a late explicit status *)
 Example example_1xx_then_write :
   let acts := [AWriteHeader 103; AWrite 5 5; AWriteHeader 500; AReadFrom 7 3] in
